@@ -9,10 +9,13 @@ import (
 
 var (
 	Pods    = []string{"p0", "p1"}
-	NodesU  = []string{"n0", "n1", "n2"}
-	WIDs    = []string{"w0", "w1", "w2", "w3"}
-	Apps    = []string{"a0", "a1"}
-	Entries = []string{"e0", "e1"}
+	// several names are strict string prefixes of others (n1/n10, w1/w10, a0/a0x/a0_x,
+	// e0/e0-t): prefix scans that lose their trailing separator show up as
+	// cross-talk between such names
+	NodesU  = []string{"n0", "n1", "n10"}
+	WIDs    = []string{"w0", "w1", "w10", "w2"}
+	Apps    = []string{"a0", "a0x"}
+	Entries = []string{"e0", "e0-t"}
 	Idents  = []string{"i0", "i1"}
 	LabelVs = []string{"x", "y"}
 )
@@ -220,6 +223,8 @@ type Gen struct {
 	// real-time runs: fixed advance step and a fixed TTL menu (see c25_test.go)
 	AdvanceStep int64
 	TTLs        []int64
+	lastW       map[string]Op
+	lastN       map[string]Op
 }
 
 func (g *Gen) wname() string {
@@ -372,8 +377,10 @@ func (g *Gen) one() Op {
 			l = append(l, a)
 		}
 		return Op{Kind: "UpdateNodes", Nodes: l}
-	case x < 42:
+	case x < 41:
 		return Op{Kind: "LoadNodeCert", N: pick(r, NodesU)}
+	case x < 42:
+		return g.listOp()
 	case x < 54:
 		w := g.workload(false)
 		var pr *Proc
@@ -397,20 +404,7 @@ func (g *Gen) one() Op {
 	case x < 66:
 		return Op{Kind: "GetWorkloads", Names: g.names(WIDs)}
 	case x < 68:
-		a, e, n := pick(r, Apps), pick(r, Entries), pick(r, NodesU)
-		switch r.Intn(5) {
-		case 0:
-			a = ""
-		case 1:
-			e = ""
-		case 2:
-			n = ""
-		}
-		lim := int64(0)
-		if r.Intn(2) == 0 {
-			lim = int64(r.Intn(3) + 1)
-		}
-		return Op{Kind: "ListWorkloads", A: a, E: e, N: n, Limit: lim, Lbl: genFilter(r)}
+		return g.listOp()
 	case x < 70:
 		return Op{Kind: "ListNodeWorkloads", N: pick(r, NodesU), Lbl: genFilter(r)}
 	case x < 72:
@@ -432,7 +426,17 @@ func (g *Gen) one() Op {
 		case 1:
 			ttl = -1
 		}
-		return Op{Kind: "SetNodeStatus", N: n, P: p, TTL: ttl}
+		if prev, ok := g.lastN[n]; ok && g.StatusHeavy && r.Intn(2) == 0 {
+			return prev // identical re-report (same value and ttl)
+		}
+		o := Op{Kind: "SetNodeStatus", N: n, P: p, TTL: ttl}
+		if g.lastN == nil {
+			g.lastN = map[string]Op{}
+		}
+		if ttl > 0 {
+			g.lastN[n] = o
+		}
+		return o
 	case x < 84:
 		return Op{Kind: "GetNodeStatus", N: pick(r, NodesU)}
 	case x < 92:
@@ -461,7 +465,21 @@ func (g *Gen) one() Op {
 		if r.Intn(5) == 0 {
 			ttl = 0
 		}
-		return Op{Kind: "SetWorkloadStatus", St: &WStat{ID: id, Running: r.Intn(2) == 0, Healthy: r.Intn(3) == 0}, A: a, E: e, N: n, TTL: ttl}
+		if prev, ok := g.lastW[id]; ok && g.StatusHeavy {
+			switch r.Intn(4) {
+			case 0:
+				return prev // identical re-report (same value and ttl)
+			case 1:
+				prev.TTL = ttl // same value, other ttl (possibly 0)
+				return prev
+			}
+		}
+		o := Op{Kind: "SetWorkloadStatus", St: &WStat{ID: id, Running: r.Intn(2) == 0, Healthy: r.Intn(3) == 0}, A: a, E: e, N: n, TTL: ttl}
+		if g.lastW == nil {
+			g.lastW = map[string]Op{}
+		}
+		g.lastW[id] = o
+		return o
 	case x < 94:
 		return Op{Kind: "GetWorkloadStatus", N: pick(r, WIDs)}
 	default:
@@ -470,6 +488,24 @@ func (g *Gen) one() Op {
 		}
 		return Op{Kind: "Advance", TTL: int64(r.Intn(6)) + 1}
 	}
+}
+
+func (g *Gen) listOp() Op {
+	r := g.R
+	a, e, n := pick(r, Apps), pick(r, Entries), pick(r, NodesU)
+	switch r.Intn(6) {
+	case 0, 1:
+		a = ""
+	case 2:
+		e = ""
+	case 3:
+		n = ""
+	}
+	lim := int64(0)
+	if r.Intn(3) != 0 {
+		lim = int64(r.Intn(3) + 1)
+	}
+	return Op{Kind: "ListWorkloads", A: a, E: e, N: n, Limit: lim, Lbl: genFilter(r)}
 }
 
 // Next generates the next op, applies it to the shadow and returns its divergence tag.
@@ -504,7 +540,7 @@ func Probes() []Op {
 	for _, w := range WIDs {
 		l = append(l, Op{Kind: "GetWorkload", N: w})
 	}
-	l = append(l, Op{Kind: "ListWorkloads"})
+	l = append(l, Op{Kind: "ListWorkloads"}, Op{Kind: "ListWorkloads", Limit: 1}, Op{Kind: "ListWorkloads", A: "a0", Limit: 2})
 	for _, a := range append(append([]string{}, Apps...), "a0_x") {
 		for _, e := range Entries {
 			l = append(l, Op{Kind: "GetDeployStatus", A: a, E: e})
